@@ -38,7 +38,10 @@ type runCase struct {
 	RandSeed int64  `json:"rand_seed"`
 	Sabotage bool   `json:"sabotage"`
 	Canon    bool   `json:"canonical"`
-	Occ      bool   `json:"occupancy_anchor,omitempty"` // calibrated to launch > 480 wavefronts on one mi300a
+	// PageCross: the layer's bias tensor is a slice of the parameter buffer
+	// (offset = weight bytes) that straddles a 4 KiB page boundary
+	PageCross bool `json:"page_crossing_parameter_slice,omitempty"`
+	Occ       bool `json:"occupancy_anchor,omitempty"` // calibrated to launch > 480 wavefronts on one mi300a
 	// several benchmarks in one simulation (amd/samples/concurrentkernel,
 	// concurrentworkload): the primary workload above is member 0; every
 	// member gets its own Driver.Init() context (= its own process id).
